@@ -24,6 +24,7 @@ UNITS = {
     'jmespath':   ('jmespath.cpp',   ['jsoncons_ext/jmespath/']),
     'jsonschema': ('jsonschema.cpp', ['jsoncons_ext/jsonschema/']),
     'patch':      ('patch.cpp',      ['jsoncons_ext/jsonpointer/', 'jsoncons_ext/jsonpatch/', 'jsoncons_ext/mergepatch/']),
+    'control':    ('control.cpp',    ['drivers/control.cpp']),
     'reflect':    ('reflect.cpp',    ['include/jsoncons/reflect/', 'include/jsoncons/decode_json.hpp', 'include/jsoncons/encode_json.hpp',
                                       'jsoncons_ext/cbor/decode_cbor.hpp', 'jsoncons_ext/cbor/encode_cbor.hpp', 'drivers/']),
 }
